@@ -525,6 +525,13 @@ func (i *Inst) runTunUser(s *FrontScript, tw *TraceWriter, rng *rand.Rand) error
 	case "ntlm":
 		user = "nuser1"
 		oo.NTLM = &wsraw.NTLMCreds{User: user, Pass: i.Users[user]}
+	case "ntlm-at", "ntlm-bsl":
+		// an account whose name carries a realm / a domain; the bare name is another account of the same user file
+		user = map[string]string{"ntlm-at": "nuser1@contractors.example", "ntlm-bsl": "CONTRACTORS\\nuser1"}[s.Scheme]
+		oo.NTLM = &wsraw.NTLMCreds{User: user, Pass: i.Users[user]}
+	case "local-at":
+		user = "7@o.example"
+		oo.Basic = user + ":" + i.Users[user]
 	default:
 		return fmt.Errorf("tunuser: scheme %q", s.Scheme)
 	}
